@@ -63,6 +63,9 @@ CLASSES = [
     's404',
     'c4xx_json',
     'c4xx_temp',
+    'ok_marker',
+    's404_marker',
+    'c4xx_marker',
     'exc',
 ]
 ATTEMPTS = 6
@@ -139,6 +142,13 @@ def gen_response(rng, cls, tok):
         return {'cls': cls, 'status': rng.choice([400, 403, 409, 410]), 'ctype': 'application/json', 'body': json.dumps([{'kind': 'permanent', 'id': 'rpc.bad_request', 'tok': tok}])}
     if cls == 'c4xx_temp':
         return {'cls': cls, 'status': rng.choice([400, 403, 409, 429]), 'ctype': 'application/json', 'body': json.dumps([{'kind': 'temporary', 'id': 'node.prevalidation.busy', 'tok': tok}])}
+    if cls == 'ok_marker':
+        # a successful answer that merely *quotes* the prevalidator source file (a stored string, a log excerpt)
+        return {'cls': cls, 'status': 200, 'ctype': 'application/json', 'body': json.dumps({'tok': tok, 'note': 'Assert_failure src/lib_shell/prevalidator.ml:1918:6'})}
+    if cls == 's404_marker':
+        return {'cls': cls, 'status': 404, 'ctype': 'text/plain', 'body': f'no such path src/lib_shell/prevalidator.ml {tok}'}
+    if cls == 'c4xx_marker':
+        return {'cls': cls, 'status': rng.choice([400, 403, 409]), 'ctype': 'text/plain', 'body': f'bad request: Assert_failure src/lib_shell/prevalidator.ml:1918:6 {tok}'}
     if cls == 'exc':
         return {'cls': cls, 'exc': rng.choice(['ConnectionError', 'ReadTimeout'])}
     raise ValueError(cls)
@@ -176,6 +186,11 @@ def gen(seed, tier):
                 resp['headers'] = {'retry-after': rng.choice(['0', '1', '1', '3', '120', 'Wed, 21 Oct 2026 07:28:00 GMT'])}
             if rng.random() < 0.2:
                 resp['latency_ms'] = rng.choice([5, 400, 4000, 25000])  # a slow answer: virtual time passes while waiting for it
+            if resp.get('body') is not None and resp.get('status', 0) >= 400 and resp.get('ctype') != 'application/json' and rng.random() < 0.25:
+                # a long dump after the message (a backtrace, a gateway page)
+                resp['body'] = resp['body'] + ' ' + ('Raised at file "src/lib_shell/foo.ml", line 12, characters 3-40\n' * rng.choice([10, 80]))
+            if resp.get('body') is not None and rng.random() < 0.3:
+                resp.setdefault('headers', {})['content-length'] = str(len(resp['body'].encode()))
             script.append(resp)
         step = {'via': via, 'path': path, 'params': params, 'script': script}
         if via == 'node.post':
@@ -397,7 +412,10 @@ def _execute(scn, want_log=False):
                 body = json.loads(decider['body'])
                 tok = body['tok'] if isinstance(body, dict) else (body[-1]['tok'] if body else None)
             except (ValueError, KeyError, TypeError, IndexError):
-                tok = decider['body'].split()[-1] if decider['body'] and decider['cls'] not in ('empty_list5xx', 'odd_items5xx') else None
+                import re as _re
+
+                mt = _re.search(r'T\d+\.\d+\.\d+', decider['body'] or '')
+                tok = mt.group(0) if mt and decider['cls'] not in ('empty_list5xx',) else None
             if decider['status'] == 200:
                 if exc is not None:
                     violate('outcome', 'raised-on-success', step=si, got=repr(exc), attempts=len(reqs))
